@@ -123,8 +123,10 @@ def int_to_str(ip, n):
     ip.ctx.assume(z3.Implies(z3.And(t >= 10, t <= 99), L == 2))
     ip.ctx.assume(z3.Implies(z3.And(t >= 100, t <= 999), L == 3))
     ip.ctx.assume(z3.Implies(t >= 1000, L >= 4))
+    ip.ctx.assume(z3.InRe(s, INT_OK))          # language fact (decides later tests on the text without the solver)
     ip.ctx.assume(z3.Implies(t >= 0, z3.InRe(s, DIGITS1)))
     ip.ctx.assume(z3.Implies(t >= 0, z3.StrToInt(s) == t))
+    ip.ctx.assume(z3.Implies(t < 0, z3.StrToInt(z3.SubString(s, 1, z3.Length(s) - 1)) == -t))
     ip.ctx.assume(z3.Implies(t < 0, z3.And(L >= 2, z3.SubString(s, 0, 1) == z3.StringVal('-'))))
     ip.ctx.assume(z3.Implies(t >= 10, z3.SubString(s, 0, 1) != z3.StringVal('0')))
     return SV(s)
@@ -644,7 +646,7 @@ def py_str(ip, x, node=None):
         if x.is_int():
             return int_to_str(ip, x)
         if x.is_bool():
-            return wrap(z3.If(x.t, z3.StringVal('True'), z3.StringVal('False')))
+            return 'True' if ip.ctx.branch(x.t) else 'False'     # fork: keeps the text structure concrete
     if isinstance(x, SOpt):
         if ip.ctx.branch(x.n):
             return 'None'
@@ -1367,6 +1369,9 @@ def _getattr(ip, args, kwargs, node):
 @model(setattr)
 def _setattr(ip, args, kwargs, node):
     obj, name, val = args
+    if isinstance(name, SV) and isinstance(obj, Obj):
+        # the name is one of the object's existing attributes (case split); a new name is not modelled
+        name = concretize(ip, name, list(obj.fields.keys()), node, AttributeError)
     if not isinstance(name, str):
         raise Unsupported("setattr with symbolic attribute name")
     ip.setattr(obj, name, val, node)
@@ -2217,3 +2222,42 @@ def _dict2(ip, args, kwargs, node):
     for k, v in kwargs.items():
         adict_set(ip, d, k, v)
     return d
+
+
+def merge_values(c, a, b):
+    """value of `a if c else b` for a symbolic condition c, without forking (spec mode)"""
+    if a is b:
+        return a
+    if isinstance(a, (tuple, list)) and isinstance(b, (tuple, list)) and type(a) is type(b) and len(a) == len(b):
+        out = [merge_values(c, x, y) for x, y in zip(a, b)]
+        if any(o is NotImplemented for o in out):
+            return NotImplemented
+        return type(a)(out)
+
+    def split(v):
+        if v is None:
+            return (z3.BoolVal(True), None)
+        if isinstance(v, SOpt):
+            return (v.n, v.v.t)
+        if isinstance(v, (SV, bool, int, str)):
+            return (z3.BoolVal(False), lift(v))
+        return None
+    sa, sb = split(a), split(b)
+    if sa is None or sb is None:
+        return NotImplemented
+    pa, pb = sa[1], sb[1]
+    if pa is None and pb is None:
+        return None
+    if pa is None:
+        pa = pb
+    if pb is None:
+        pb = pa
+    if pa.sort() != pb.sort():
+        return NotImplemented
+    n = z3.simplify(z3.If(c, sa[0], sb[0]))
+    v = z3.simplify(z3.If(c, pa, pb))
+    if z3.is_false(n):
+        return wrap(v)
+    if z3.is_true(n):
+        return None
+    return SOpt(n, SV(v))
